@@ -311,15 +311,25 @@ class EngineEnv:
         os.makedirs(self.logs, exist_ok=True)
         os.makedirs(self.snap, exist_ok=True)
         st = SimTime(self.clock)
-        for m in _TIME_MODULES:
-            if hasattr(m, "time"):
-                self._set(m, "time", st)
         shim = DatetimeModuleShim(self.clock)
-        for m in _DT_MODULES:
-            if hasattr(m, "dt"):
-                self._set(m, "dt", shim)
-        if hasattr(t3bundle, "datetime"):
-            self._set(t3bundle, "datetime", shim.datetime)
+        # 1. every module-level binding of time / datetime inside the code under test (also ones a change may have added)
+        import datetime as _rdt
+        import time as _rt
+        for name, mod in list(sys.modules.items()):
+            if mod is None or not (name == "clematis" or name.startswith("clematis.") or name == "configs" or name.startswith("configs.")):
+                continue
+            for attr, val in list(vars(mod).items()):
+                if val is _rt:
+                    self._set(mod, attr, st)
+                elif val is _rdt:
+                    self._set(mod, attr, shim)
+                elif val is _rdt.datetime:
+                    self._set(mod, attr, shim.datetime)
+        # 2. the time module itself, for function-local `import time` and third parties called by the engine
+        for attr, fn in (("time", self.clock.time), ("time_ns", self.clock.time_ns), ("perf_counter", self.clock.perf_counter),
+                         ("monotonic", self.clock.monotonic), ("sleep", self.clock.sleep), ("perf_counter_ns", st.perf_counter_ns),
+                         ("monotonic_ns", st.monotonic_ns)):
+            self._set(_rt, attr, fn)
         if self.patch_caches:
             SimLRUCache._clock = self.clock
             SimCacheManager._clock = self.clock
